@@ -171,6 +171,9 @@ func parseDirectives(fn *ssa.Function, h *harnessInfo) {
 				h.cfg.Schedules = v != "0"
 			case "race":
 				h.cfg.RaceDetect = v != "0"
+			case "maxrand":
+				n, _ := strconv.Atoi(v)
+				h.cfg.MaxRand = n
 			case "preempt":
 				n, _ := strconv.Atoi(v)
 				h.cfg.MaxPreempt = n
